@@ -68,17 +68,23 @@ def do_register(o):
 
 
 def stix_classes_in_traceback(e):
-    """Classes of the STIX objects under construction when e was raised, outermost first."""
+    """Classes of the STIX objects under construction when e was raised, outermost first.  An exception
+    wrapped by _check_property (`raise InvalidValueError(...) from exc`) carries the inner frames in its
+    __cause__: the chain is followed."""
     from stix2.base import _STIXBase
     out = []
-    tb = e.__traceback__
-    while tb is not None:
-        f = tb.tb_frame
-        if f.f_code.co_name == "__init__":
-            s = f.f_locals.get("self")
-            if isinstance(s, _STIXBase) and (not out or out[-1] is not type(s)):
-                out.append(type(s))
-        tb = tb.tb_next
+    seen = set()
+    while e is not None and id(e) not in seen:
+        seen.add(id(e))
+        tb = e.__traceback__
+        while tb is not None:
+            f = tb.tb_frame
+            if f.f_code.co_name == "__init__":
+                s = f.f_locals.get("self")
+                if isinstance(s, _STIXBase) and (not out or out[-1] is not type(s)):
+                    out.append(type(s))
+            tb = tb.tb_next
+        e = e.__cause__
     return out
 
 
@@ -148,7 +154,9 @@ def do_op(o):
         return observe_parse(stix2.parse_observable, parse_body(o), allow_custom=o["allow_custom"],
                              version=o.get("version"))
     if k == "marking":
-        defn = {"statement": "s"} if o["name"] == "statement" else {}
+        # an undeclared member: whichever marking class is dispatched to refuses it, and is then
+        # seen in the traceback (an empty definition would be falsy and fail a later presence check)
+        defn = {"zz_probe": "x"}
         body = {"type": "marking-definition", "id": "marking-definition--" + UUID4, "created": T0,
                 "definition_type": o["name"], "definition": defn}
         if o["ver"] == "2.1":
